@@ -5,7 +5,7 @@
    rune_count s; s[i:j] is [slice s i j]; fold-equality is Spec.equal_fold,
    which is strings.EqualFold (C02: spec_equal_fold_eq_std). They hold for
    all byte strings, valid UTF-8 or not. *)
-From Strcase Require Import Base Utf8 Utf8Facts Spec SpecFacts SpecIndex Fold FoldFacts FoldTables FoldFacts121 StdSpec.
+From Strcase Require Import Base Utf8 Utf8Facts Spec SpecFacts SpecIndex Fold FoldFacts FoldTables FoldFacts121 StdSpec Impl Impl6 Instances.
 
 (* a reported position is a match between boundaries, and no match starts earlier *)
 Theorem C01_index_leftmost : forall s sub i,
@@ -38,6 +38,36 @@ Theorem C01_equal_fold_is_std : forall s t, wf s -> wf t ->
   equal_fold fold121 s t = std_equal_fold R121 s t.
 Proof. exact spec_equal_fold_eq_std. Qed.
 Print Assumptions C01_equal_fold_is_std.
+
+(* the structure-faithful model of Index (Impl6.Index: the dispatch on the needle's
+   length, the length pre-checks, IndexByte / IndexRune for one code point, the native
+   search for caseless ASCII needles, bruteForceIndexUnicode, the main loop with its
+   candidate jumps and its Rabin-Karp hand-over) computes Spec.index — for both packages,
+   both kernel configurations, every cutover function and every value of the thresholds
+   maxBruteForce / maxLen / primeRK, on every pair of byte strings, never panicking and
+   never running out of fuel *)
+Theorem C01_index_refines : forall p native cutover maxBruteForce maxLen primeRK s sub, wf s -> wf sub ->
+  Impl6.Index native cutover fold121 (lower_pkg p) fold_map121 fold_map_excl121 upper_lower121 maxBruteForce maxLen primeRK p s sub =
+  Ok (index fold121 s sub).
+Proof. exact index_refines121. Qed.
+Print Assumptions C01_index_refines.
+
+Theorem C01_contains_refines : forall p native cutover maxBruteForce maxLen primeRK s sub, wf s -> wf sub ->
+  Impl6.Contains native cutover fold121 (lower_pkg p) fold_map121 fold_map_excl121 upper_lower121 maxBruteForce maxLen primeRK p s sub =
+  Ok (contains fold121 s sub).
+Proof. exact contains_refines121. Qed.
+Print Assumptions C01_contains_refines.
+
+(* the two search procedures Index delegates to, on their own *)
+Theorem C01_bruteforce_refines : forall p s sub, wf s -> wf sub -> (2 <= rune_count sub)%nat ->
+  Impl6.bruteForceIndexUnicode fold121 (lower_pkg p) fold_map_excl121 upper_lower121 p s sub = Ok (index fold121 s sub).
+Proof. exact bruteforce_refines121. Qed.
+Print Assumptions C01_bruteforce_refines.
+
+Theorem C01_rabinkarp_refines : forall p primeRK s sub, wf s -> wf sub -> sub <> [] ->
+  Impl6.indexRabinKarpUnicode fold121 (lower_pkg p) primeRK p s sub = Ok (index fold121 s sub).
+Proof. exact rabinkarp_refines121. Qed.
+Print Assumptions C01_rabinkarp_refines.
 
 (* non-vacuity: the D1 witness "xxxxxxxxxxxxxxxxxxxx世k" / "世K", and width-changing partners *)
 Example C01_example :
